@@ -155,7 +155,7 @@ impl Check for C18 {
         "fault_enumeration"
     }
     fn rule(&self) -> &'static str {
-        "case = configuration with 1-4 modes (identifier-like distinct names), lookaheads of both polarities, classes and literals whose text needs escaping in a label (quote, backslash, newline, non-ASCII, braces), a random prefix, a target folder that is fresh or already holds larger files of an earlier export under the same names plus an unrelated file, plus one injected fault out of {none, target folder missing, regular file in place of the folder, directory occupying an output file name, over-long prefix}; oracle = without fault: Ok, the fresh target directory contains exactly the files <prefix>_<mode>.dot, each parses with a strict parser of the DOT subset, and by content: nodes = states (number leading the label), ` T<t>` exactly on accepting non-start states with t their token type, multiset of edges (source state, trailing (C#id), target state) = multiset of transitions of the feature-gated dump, exactly one cluster per lookahead labelled with T<t> and Pos/Neg containing the lookahead automaton under the same rules; with fault: Err and no panic; non-trivial = >= 2 modes or >= 1 lookahead together with a label needing an escape"
+        "case = configuration with 1-4 modes (identifier-like distinct names), lookaheads of both polarities (also nullable ones), ~9% with a token type shared by several patterns of a mode, classes and literals whose text needs escaping in a label (quote, backslash, newline, non-ASCII, braces), a random prefix, a target folder that is fresh or already holds larger files of an earlier export under the same names plus an unrelated file, plus one injected fault out of {none, target folder missing, regular file in place of the folder, directory occupying an output file name, over-long prefix}; oracle = without fault: Ok, the fresh target directory contains exactly the files <prefix>_<mode>.dot, each parses with a strict parser of the DOT subset, and by content: nodes = states (number leading the label), ` T<t>` exactly on accepting non-start states with t their token type, multiset of edges (source state, trailing (C#id), target state) = multiset of transitions of the feature-gated dump, exactly one cluster per lookahead labelled with T<t> and Pos/Neg containing the lookahead automaton under the same rules; with fault: Err and no panic; non-trivial = >= 2 modes or >= 1 lookahead together with a label needing an escape"
     }
     fn cases(&self, thorough: bool) -> usize {
         if thorough {
@@ -229,6 +229,10 @@ impl Check for C18 {
                 },
             });
         }
+        if d.chance(24) {
+            // a token type shared by several patterns of a mode (with or without lookaheads)
+            crate::checks::automaton::share_token_type(d, &mut modes);
+        }
         let pchars: Vec<char> = "abcXYZ019_.- ".chars().collect();
         let mut prefix = String::new();
         for _ in 0..1 + d.below(8) {
@@ -242,7 +246,7 @@ impl Check for C18 {
         }
     }
     fn check(&self, case: &Case) -> CheckResult {
-        if let Err(r) = domain_ok(case) {
+        if let Err(r) = domain_ok_structural(case) {
             return Ok(discard(r));
         }
         // names identifier-like and distinct (domain rule 6)
@@ -370,6 +374,12 @@ impl Check for C18 {
                 }
             }
             let has_la = case.modes.iter().any(|m| m.pats.iter().any(|p| p.la.is_some()));
+            st.flag(
+                "token_type_shared_within_a_mode",
+                case.modes.iter().any(|m| {
+                    m.pats.iter().enumerate().any(|(i, p)| m.pats[..i].iter().any(|q| q.tt == p.tt))
+                }),
+            );
             let escapes = st.counters.iter().any(|(k, _)| *k == "files_with_escapes");
             st.nontrivial = (case.modes.len() >= 2 || has_la) && escapes;
             Ok(st.clone())
